@@ -24,10 +24,7 @@ func ProfileFor(prop, tier string, seed uint64) *Profile {
 		// several databases (CREATE DATABASE and USE while another database
 		// has dirty pages and a live flusher), restarts included
 		pf := ProfileFor("C13", tier, seed)
-		pf.DBs = [2]int{1, 3}
-		pf.WUseSwitch, pf.WCreateDB, pf.WBadDB = 10, 5, 2
-		pf.WRestart = 3
-		pf.TickModes = []string{"random", "each", "sparse", "late"}
+		c13MultiDB(pf)
 		return pf
 	}
 	pf := base(prop)
@@ -249,6 +246,10 @@ func ProfileFor(prop, tier string, seed uint64) *Profile {
 		if thorough {
 			pf.Stmts = [2]int{10, 60}
 		}
+		if seed%7 == 3 {
+			// a share of the ordinary workers runs the several-database workload too
+			c13MultiDB(pf)
+		}
 	case "C14":
 		pf.WFail = 30
 		pf.WRestart = 6
@@ -289,6 +290,7 @@ func ProfileFor(prop, tier string, seed uint64) *Profile {
 	case "C17":
 		pf.DBs = [2]int{2, 4}
 		pf.WUseSwitch, pf.WCreateDB, pf.WShowDB, pf.WBadDB = 12, 4, 3, 5
+		pf.OpenFailP = 0.12
 		pf.WRestart = 6
 		pf.Boundary = 2
 		pf.Stmts = [2]int{15, 60}
@@ -303,4 +305,14 @@ func ProfileFor(prop, tier string, seed uint64) *Profile {
 		pf.Stmts = [2]int{15, 60}
 	}
 	return pf
+}
+
+// c13MultiDB: the C13 workload over several databases, with USE statements
+// that meet an open error.
+func c13MultiDB(pf *Profile) {
+	pf.DBs = [2]int{1, 3}
+	pf.WUseSwitch, pf.WCreateDB, pf.WBadDB = 10, 5, 2
+	pf.WRestart = 3
+	pf.TickModes = []string{"random", "each", "sparse", "late"}
+	pf.OpenFailP = 0.4
 }
